@@ -50,6 +50,9 @@ const (
 	findingProposer  = "C14-restored-proposer-heuristic"
 	findingParams    = "C14-consensus-params-of-other-height"
 	findingNonAdv    = "C14-chunk-from-non-advertiser"
+	findingCommit    = "C14-seen-commit-only-light-verified"
+	findingKey       = "C14-snapshot-key-collision"
+	findingLeft      = "C14-reject-sender-misses-departed-advertiser"
 	// owned by the C09 (light client) harness; they surface here through the real light-client state provider
 	findingC09a = "C09-conflicting-witness-counts-as-match"
 	findingC09b = "C09-promoted-primary-stays-witness"
@@ -423,6 +426,9 @@ type driver struct {
 	q     *queueModel
 	ph    phase
 	cands []string // keys SyncAny may have selected (phOffer after phSelect)
+	// advertisers of each candidate at the moment of selection: REJECT_SENDER means "all senders of this snapshot",
+	// also those that disconnect while the snapshot is being offered
+	selPeers map[string][]string
 
 	// current attempt
 	trusted      []byte // the provider's AppHash answer of this attempt
@@ -442,6 +448,8 @@ type driver struct {
 	knownLate    bool                       // tolerate the listed known finding
 	everAdv      map[string]map[string]bool // snapshot key -> peers that ever sent an advertisement of it
 	nonAdvHit    bool
+	departed     map[string]bool   // rejected by REJECT_SENDER after they had left the pool
+	flatSeen     map[string]string // concatenated field bytes -> first snapshot key seen with them
 	knownHit     bool
 	classes      map[string]bool
 	nonAccept    int
@@ -528,7 +536,7 @@ func (d *driver) drawSnapshot() (snapDesc, string) {
 	h := rapid.SampledFrom([]uint64{3, 5, 5, 6, 6, 6}).Draw(t, "snap.h")
 	f := rapid.SampledFrom([]uint32{1, 1, 2, 2, 3}).Draw(t, "snap.f")
 	kind := rapid.SampledFrom([]string{"genuine", "genuine", "genuine", "genuine", "genuine", "genuine", "bogus-hash", "bogus-chunks",
-		"bogus-meta", "height-beyond-tip", "height-no-h+2", "low-height"}).Draw(t, "snap.kind")
+		"bogus-meta", "height-beyond-tip", "height-no-h+2", "low-height", "shift-hash-meta", "shift-chunks-hash"}).Draw(t, "snap.kind")
 	s := d.genuine(h, f)
 	switch kind {
 	case "bogus-hash":
@@ -537,6 +545,17 @@ func (d *driver) drawSnapshot() (snapDesc, string) {
 		s.Chunks = s.Chunks%6 + 1
 	case "bogus-meta":
 		s.Meta = "m" + fmt.Sprint(rapid.IntRange(0, 1).Draw(t, "meta"))
+	case "shift-hash-meta":
+		// same bytes, another field boundary: "A snapshot is considered identical across nodes only if all fields are
+		// equal (including Metadata)", so this is a different snapshot
+		s.Meta = s.Hash[len(s.Hash)-1:]
+		s.Hash = s.Hash[:len(s.Hash)-1]
+	case "shift-chunks-hash":
+		// a pair whose decimal chunk count and hash differ only in where the digits end
+		s.Chunks, s.Hash = 1, "2digits"
+		if rapid.Bool().Draw(t, "twin") {
+			s.Chunks, s.Hash = 12, "digits"
+		}
 	case "height-beyond-tip":
 		s.Height = chainTip + uint64(rapid.IntRange(1, 3).Draw(t, "dh"))
 		s.Hash, s.Chunks = "far", 2
@@ -561,6 +580,16 @@ func (d *driver) addSnapshot(peer string, s snapDesc, kind string) {
 	d.class("snapshot:" + kind)
 	if err != nil {
 		d.failf("AddSnapshot returned an error: %v", err)
+	}
+	if flat := fmt.Sprintf("%d:%d:%d%s%s", s.Height, s.Format, s.Chunks, s.Hash, s.Meta); d.flatSeen[flat] == "" {
+		d.flatSeen[flat] = s.key()
+	} else if twin := d.flatSeen[flat]; got != want && twin != s.key() {
+		d.failf("FINDING %s: AddSnapshot(%s, %s) = %v, model says %v: the pool confuses it with the different snapshot %s advertised earlier (same bytes, other field boundaries)",
+			findingKey, peer, s.key(), got, want, twin)
+	}
+	if got && !want && d.departed[peer] {
+		d.failf("FINDING %s: %s advertised a snapshot, left while it was being offered, the application answered REJECT_SENDER; now its advertisement %s is accepted again",
+			findingLeft, peer, s.key())
 	}
 	if got != want {
 		d.failf("AddSnapshot(%s, %s) = %v, model says %v (rejected peer=%v format=%v snapshot=%v, peer has %d)", peer, s.key(), got, want,
@@ -853,6 +882,10 @@ func (d *driver) onAppHash(ev *event) {
 			d.failf("AppHash(%d) requested although the model's pool holds no usable snapshot (rejected snapshots=%v formats=%v peers=%v)",
 				ev.height, keysOf(d.pool.rejSnap), d.pool.rejFormat, keysOf(d.pool.rejPeer))
 		}
+		d.selPeers = map[string][]string{}
+		for _, k := range d.cands {
+			d.selPeers[k] = keysOf(d.pool.snaps[k].peers)
+		}
 		top := d.pool.snaps[d.cands[0]].desc
 		if ev.height != top.Height {
 			d.failf("AppHash(%d) requested but the best usable snapshot(s) %v have height %d", ev.height, d.cands, top.Height)
@@ -976,6 +1009,13 @@ func (d *driver) onOffer(ev *event) {
 		res.Result = abci.ResponseOfferSnapshot_REJECT_SENDER
 		if e := d.pool.snaps[key]; e != nil {
 			for _, p := range keysOf(e.peers) {
+				d.pool.rejectPeer(p)
+			}
+		}
+		for _, p := range d.selPeers[key] {
+			if !d.pool.rejPeer[p] {
+				d.class("offer:REJECT_SENDER-of-departed-advertiser")
+				d.departed[p] = true
 				d.pool.rejectPeer(p)
 			}
 		}
@@ -1447,7 +1487,7 @@ func runHistory(t *rapid.T, test string) {
 	s := statesync.VerifC14NewSyncer(config.StateSyncConfig{ChunkFetchers: 0, ChunkRequestTimeout: 10 * time.Second},
 		log.NewNopLogger(), proxy.NewAppConnSnapshot(cli), proxy.NewAppConnQuery(cli), &provDouble{r: r}, dir)
 	d := &driver{t: t, rt: t, test: test, c: c, r: r, s: s, dir: dir, pool: newPoolModel(), ph: phSelect,
-		everAdv: map[string]map[string]bool{}, chunksOf: map[string]uint32{}, offeredKeys: map[string]int{}, classes: map[string]bool{},
+		everAdv: map[string]map[string]bool{}, flatSeen: map[string]string{}, departed: map[string]bool{}, chunksOf: map[string]uint32{}, offeredKeys: map[string]int{}, classes: map[string]bool{},
 		knownLate: lib.IsKnown(findingLateChunk)}
 	if d.pool.limit != statesync.VerifC14RecentSnapshots {
 		t.Fatalf("recentSnapshots is %d, the model assumes 10", statesync.VerifC14RecentSnapshots)
